@@ -102,10 +102,11 @@ class Software:
         return 0
 
     @staticmethod
-    def version_key(version: str) -> Tuple[Tuple[int, ...], str]:
+    def version_key(version: str) -> Tuple[Tuple[Tuple[int, str], ...], str]:
         '''Returns a sort key for a version string.  Dotted decimal versions are ordered by their numeric components; anything else falls back to plain string order.'''
         if re.match(r'^\d+(\.\d+)*$', version):
-            return tuple(int(x) for x in version.split('.')), ''
+            # A component without its leading zeros is ordered by length first, then by its digits: numeric order without converting digit strings of arbitrary length (which come from the peer) to integers.
+            return tuple((len(x.lstrip('0')), x.lstrip('0')) for x in version.split('.')), ''
         return (), version
 
     def between_versions(self, vfrom: str, vtill: str) -> bool:
